@@ -18,7 +18,7 @@ case "$ID" in
     scripts/build_instr.sh "$IBIN" || { echo "tool error: instrumented build failed" >&2; exit 2; }
     "$IBIN" "$ID" "$TIER" "$@"
     exit $? ;;
-  C16|C08)
+  C16|C08|C06)
     scripts/build_instr.sh "$IBIN" || { echo "tool error: instrumented build failed" >&2; exit 2; }
     export VERIF_INSTR_BIN="$(pwd)/$IBIN" ;;
 esac
